@@ -11,37 +11,59 @@ Fixpoint set_cc (n : nat) (v : Z) (l : list Z) : list Z :=
   | _ :: r, O => v :: r
   | x :: r, S k => x :: set_cc k v r
   end.
-Record pf_acc := mkPf { pf_head : list event; pf_rest : list event; pf_cc : list Z; pf_cc_ch : list Z; pf_voice : Z; pf_voice_ch : Z }.
+(* cc_values[ch][no] = v *)
+Fixpoint set_cc2 (c n : nat) (v : Z) (t : list (list Z)) : list (list Z) :=
+  match t, c with
+  | [], _ => []
+  | row :: r, O => set_cc n v row :: r
+  | row :: r, S k => row :: set_cc2 k n v r
+  end.
+(* the tables are PER CHANNEL (a track may use several channels): pf_cc = cc_values[16][128], pf_voice = voices[16] *)
+Record pf_acc := mkPf { pf_head : list event; pf_rest : list event; pf_cc : list (list Z); pf_voice : list Z }.
+(* value_range(0, e.channel, 15) as usize: the channel as the writer will send it *)
+Definition pf_chan (e : event) : nat := Z.to_nat (value_range 0 (e_ch e) 15).
 Definition pf_step (tp : Z) (a : pf_acc) (e : event) : pf_acc :=
   let t := e_time e - tp in
   match e_type e with
   | Meta | SysEx =>
-      if t <? 0 then mkPf (pf_head a ++ [set_time e 0]) (pf_rest a) (pf_cc a) (pf_cc_ch a) (pf_voice a) (pf_voice_ch a)
-      else mkPf (pf_head a) (pf_rest a ++ [set_time e t]) (pf_cc a) (pf_cc_ch a) (pf_voice a) (pf_voice_ch a)
+      if t <? 0 then mkPf (pf_head a ++ [set_time e 0]) (pf_rest a) (pf_cc a) (pf_voice a)
+      else mkPf (pf_head a) (pf_rest a ++ [set_time e t]) (pf_cc a) (pf_voice a)
   | NoteOn =>
-      if t <? 0 then a else mkPf (pf_head a) (pf_rest a ++ [set_time e t]) (pf_cc a) (pf_cc_ch a) (pf_voice a) (pf_voice_ch a)
+      if t <? 0 then a else mkPf (pf_head a) (pf_rest a ++ [set_time e t]) (pf_cc a) (pf_voice a)
   | Voice =>
-      if t <? 0 then mkPf (pf_head a) (pf_rest a) (pf_cc a) (pf_cc_ch a) (e_v1 e) (e_ch e)
-      else mkPf (pf_head a) (pf_rest a ++ [set_time e t]) (pf_cc a) (pf_cc_ch a) (pf_voice a) (pf_voice_ch a)
+      if t <? 0 then mkPf (pf_head a) (pf_rest a) (pf_cc a) (set_cc (pf_chan e) (e_v1 e) (pf_voice a))
+      else mkPf (pf_head a) (pf_rest a ++ [set_time e t]) (pf_cc a) (pf_voice a)
   | ControllChange =>
       if t <? 0 then
         if (0 <=? e_v1 e) && (e_v1 e <? 128) then
-          (* the value as the writer will send it (0..127), on the channel it was set on *)
-          mkPf (pf_head a) (pf_rest a) (set_cc (Z.to_nat (e_v1 e)) (value_range 0 (e_v2 e) 127) (pf_cc a))
-               (set_cc (Z.to_nat (e_v1 e)) (e_ch e) (pf_cc_ch a)) (pf_voice a) (pf_voice_ch a)
+          (* the value as the writer will send it (0..127), in the row of the channel it was set on *)
+          mkPf (pf_head a) (pf_rest a)
+               (set_cc2 (pf_chan e) (Z.to_nat (e_v1 e)) (value_range 0 (e_v2 e) 127) (pf_cc a)) (pf_voice a)
         else a
-      else mkPf (pf_head a) (pf_rest a ++ [set_time e t]) (pf_cc a) (pf_cc_ch a) (pf_voice a) (pf_voice_ch a)
+      else mkPf (pf_head a) (pf_rest a ++ [set_time e t]) (pf_cc a) (pf_voice a)
   | _ => a
   end.
-Fixpoint restore_ccs (no : Z) (chs : list Z) (ccs : list Z) : list event :=
+(* for no in 0..128 { if cc_values[ch][no] < 0 { continue; } push cc(0, ch, no, value) } *)
+Fixpoint restore_ccs (ch no : Z) (ccs : list Z) : list event :=
   match ccs with
   | [] => []
-  | v :: r => (if v <? 0 then [] else [ev_cc 0 (hd 0 chs) no v]) ++ restore_ccs (no + 1) (tl chs) r
+  | v :: r => (if v <? 0 then [] else [ev_cc 0 ch no v]) ++ restore_ccs ch (no + 1) r
+  end.
+(* for ch in 0..16 { ... } *)
+Fixpoint restore_cc_rows (ch : Z) (rows : list (list Z)) : list event :=
+  match rows with
+  | [] => []
+  | row :: r => restore_ccs ch 0 row ++ restore_cc_rows (ch + 1) r
+  end.
+(* for ch in 0..16 { if voices[ch] >= 0 { push voice(0, ch, voices[ch]) } } *)
+Fixpoint restore_voices (ch : Z) (vs : list Z) : list event :=
+  match vs with
+  | [] => []
+  | v :: r => (if v >=? 0 then [ev_voice 0 ch v] else []) ++ restore_voices (ch + 1) r
   end.
 Definition play_from (tp : Z) (evs : list event) : list event :=
-  let a := fold_left (pf_step tp) evs (mkPf [] [] (repeat (-1) 128) (repeat 0 128) (-1) 0) in
-  pf_head a ++ restore_ccs 0 (pf_cc_ch a) (pf_cc a)
-  ++ (if pf_voice a >=? 0 then [ev_voice 0 (pf_voice_ch a) (pf_voice a)] else []) ++ pf_rest a.
+  let a := fold_left (pf_step tp) evs (mkPf [] [] (repeat (repeat (-1) 128) 16) (repeat (-1) 16)) in
+  pf_head a ++ restore_cc_rows 0 (pf_cc a) ++ restore_voices 0 (pf_voice a) ++ pf_rest a.
 
 (* get_logs_str *)
 Fixpoint join_lines (l : list (list ch)) : list ch :=
